@@ -812,7 +812,7 @@ def fam_corpus(draw, max_n=200):
 def mols(tier="quick", families=("er", "skeleton", "wlhard", "chem", "deep", "corpus", "multi", "bigcheap", "collide"), wide=False):
     q = tier == "quick"
     table = {
-        "er": [fam_er(14 if q else 20, wide=wide), fam_er(8, wide=wide), fam_er(40 if q else 80, wide=wide)],
+        "er": [fam_er(14 if q else 20, wide=wide), fam_er(8, wide=wide), fam_er(40 if q else 80, wide=wide), fam_er(130 if q else 400, wide=wide)],
         "skeleton": [fam_skeleton(big=not q), fam_skeleton(big=not q), fam_hubs()],
         "wlhard": [fam_wlhard(216 if q else 432)],
         "chem": [fam_chem(12 if q else 30), fam_chem(6)],
